@@ -37,11 +37,25 @@ def run_loop(entry, sc, seed, variant):
         y[i - 1] = y_true[i - 1]
     unlabeled = [i for i in range(1, n + 1) if i not in sc["labeled"]]
     bs = int(sc["bs"])
-    qs = entry.make(seed, np.nan, (0, 1))
-    kw = zoo.model_kwargs(entry, np.nan, (0, 1), seed=seed, variant=variant)
+    # one quarter of the loops encode the missing labels with a reserved number instead of NaN
+    ml, classes = np.nan, (0, 1)
+    if seed % 4 == 3:
+        if regression:
+            ml, classes = -999.0, zoo.REG
+            y = np.where(np.isnan(y), ml, y)
+        else:
+            ml = -1
+            y = np.where(np.isnan(y), ml, y).astype(int)
+            y_true = y_true.astype(int)
+    qs = entry.make(seed, ml, (0, 1))
+    kw = zoo.model_kwargs(entry, ml, classes, seed=seed, variant=variant)
     events = []
     cycles = 0
-    while np.isnan(y).any():
+
+    def missing(a):
+        return np.isnan(a) if ml != ml else (a == ml)
+
+    while missing(y).any():
         if cycles > len(unlabeled) + 1:
             events.append({"ev": "NotExhausted", "cycles": cycles})
             break
@@ -70,7 +84,7 @@ def run_loop(entry, sc, seed, variant):
         "id": "%s/%s/seed%d/v%d" % (entry.name, pc.scenario_tag(sc), seed, variant),
         "n": n, "unlabeled": unlabeled, "bs": bs, "labeled": sorted(sc["labeled"]), "events": events,
         "concrete": {"strategy": entry.name, "scenario": sc, "seed": seed, "variant": variant,
-                     "X": X.tolist(), "y_true": y_true.tolist(),
+                     "X": X.tolist(), "y_true": y_true.tolist(), "missing_label": "nan" if ml != ml else ml,
                      "how": "README loop: one strategy object, query(X, y, batch_size=bs, <models>), reveal, repeat"},
     }
 
